@@ -88,6 +88,45 @@ impl Walk {
         }
     }
 
+    /// Lock-step lost during a replay: `settled` = events the application received while the node
+    /// ran freely to the end of the replay.
+    pub fn judge_settled(&mut self, settled: &Value) -> Vec<Finding> {
+        let mut out = Vec::new();
+        let mut ended = !self.in_window && settled["markers"].as_array().map(|m| m.is_empty()).unwrap_or(true);
+        for ev in settled["events"].as_array().into_iter().flatten() {
+            match ev["k"].as_str() {
+                Some("rs") => self.in_window = true,
+                Some("re") => {
+                    self.in_window = false;
+                    ended = true;
+                    break;
+                }
+                Some("op") if self.in_window => {
+                    self.got_replay.insert(op_key(&ev["op"]));
+                }
+                _ => {}
+            }
+        }
+        if ended && self.got_replay != self.expect {
+            let missing: Vec<_> = self.expect.difference(&self.got_replay).collect();
+            let surplus: Vec<_> = self.got_replay.difference(&self.expect).collect();
+            out.push(Finding {
+                property: "C15",
+                signature: if !missing.is_empty() {
+                    "c15-replay-misses-unacked".into()
+                } else {
+                    "c15-replay-redelivers-acked".into()
+                },
+                detail: format!(
+                    "replay from frontier {:?} delivered {:?}; stored, with body and not acknowledged are {:?} (missing {missing:?}, surplus {surplus:?})",
+                    self.cursor_at_open, self.got_replay, self.expect
+                ),
+            });
+        }
+        self.window_done = true;
+        out
+    }
+
     /// Compares the observation after `step` with the post state TLC computed.
     pub fn compare(&mut self, step: &Value, obs: &Value, prop: &'static str) -> Vec<Finding> {
         let mut out = Vec::new();
@@ -400,6 +439,9 @@ fn run_behaviour(b: &Value, db: &std::path::Path, kill: bool, prop: &'static str
                 policies.insert(step["arg"]["p"].as_str().unwrap_or("?").to_string());
                 let (h, obs) = Host::start(kill, &cmd)?;
                 host = Some(h);
+                if obs["open_attempts"].as_u64().unwrap_or(1) > 1 {
+                    *counters.entry("open:retried".into()).or_insert(0) += 1;
+                }
                 *counters.entry(format!("open:{}", step["arg"]["from"].as_str().unwrap_or("?"))).or_insert(0) += 1;
                 obs
             }
@@ -425,9 +467,21 @@ fn run_behaviour(b: &Value, db: &std::path::Path, kill: bool, prop: &'static str
         };
         let fs = walk.compare(step, &obs, prop);
         let stop = !fs.is_empty();
+        let drift = fs.iter().any(|f| f.signature.starts_with("conformance-step-structure"));
         findings.extend(fs);
         if stop {
-            break; // after the first disagreement the rest of the schedule is meaningless
+            // After the first disagreement the rest of the schedule is meaningless. If the
+            // disagreement is about the step structure while a replay is still running, let the node
+            // run freely and judge the replay itself (property level): what it delivers up to
+            // ReplayEnded against the un-acknowledged set.
+            if drift && !walk.window_done {
+                if let Some(h) = host.as_mut() {
+                    if let Ok(settled) = h.exec(&json!({"act": "Settle"})) {
+                        findings.extend(walk.judge_settled(&settled));
+                    }
+                }
+            }
+            break;
         }
     }
     if let Some(h) = host.take() {
